@@ -583,6 +583,9 @@ IdleEndCheck(sh) ==
   If(\E i \in DOMAIN sh.idle : sh.idle[i].st = "pending"
                                /\ ~(sh.idle[i].byIdle /\ sh.idle[i].nd = sh.ndisp),
      {<<"C13", "idle_not_run_by_ok_dispatch">>})
+  \* C08: an insert_idle issued from inside a callback (of an idle, in an EARLIER dispatch) has the effect it has outside
+  \cup If(\E i \in DOMAIN sh.idle : sh.idle[i].st = "pending" /\ sh.idle[i].byIdle /\ sh.idle[i].nd # sh.ndisp,
+          {<<"C08", "idle_inserted_from_callback_was_lost">>})
 
 ReleasedCheck(sh) ==
   LET out == {s \in sh.S : sh.life[s] = "out" /\ ~InPe(sh, s)} IN
@@ -639,6 +642,9 @@ ViolSynthObs(sh, ev) ==
   \cup If(\E s \in sh.S : sh.bhe[s] > 1, {<<"C14", "before_handle_events_count">>})
 
 ViolBs(sh, ev) == If(sh.waitSeen, {<<"C14", "before_sleep_after_wait">>})
+                  \* C07: a disabled source is silent: the loop does not call its lifecycle hooks either
+                  \cup If(ev.s \in sh.S /\ sh.life[ev.s] = "in" /\ ~sh.en[ev.s] /\ ~sh.fuzzy[ev.s] /\ ~sh.faultSeen,
+                          {<<"C07", "lifecycle_hook_called_while_disabled">>})
 
 ViolIdleRun(sh, ev) ==
   LET i == ev.i IN
